@@ -73,3 +73,8 @@ impl Target {
         }
     }
 }
+
+//------------ verification hooks (feature `verif-hooks`, add-only) ----------
+
+#[cfg(feature = "verif-hooks")]
+pub mod verif;
